@@ -162,6 +162,8 @@ class Live(JupyterMixin, RenderHook):
                 self.vertical_overflow = "visible"
                 if not self.console.is_jupyter:
                     self.refresh()
+                # flush text pending in the redirected streams while it can still go above the frame
+                self._disable_redirect_io()
                 if self.console.is_terminal:
                     self.console.line()
             finally:
